@@ -273,7 +273,9 @@ void session_interface::update_exposed(bool force)
 	std::set<std::string> removed;
 	for(data_type::iterator p=data_.begin();p!=data_.end();++p) {
 		data_type::iterator p2=data_copy_.find(p->first);
-		if(p->second.exposed && (force || p2==data_copy_.end() || !p2->second.exposed || p->second.value!=p2->second.value)){
+		// the cookie of an exposed key has to live as long as the session cookie that every save
+		// re-issues (and the client may have lost it or hold an older value): always send it
+		if(p->second.exposed) {
 			set_session_cookie(cookie_age(),p->second.value,p->first);
 		}
 		else if(!p->second.exposed && ((p2!=data_copy_.end() && p2->second.exposed) || force)) {
